@@ -178,6 +178,10 @@ class Machine:
         self.cfg = ABIS[abi]
         self.in_proc = False
         self._reset_procedure()
+        # what the previous procedure looked like when it was closed.  Not part of the DWARF state - the rules say
+        # it is forgotten - but part of canon(): an implementation that lets it leak into the next procedure behaves
+        # differently after different first procedures, so histories that differ only there are not merged.
+        self.ghost = None
         self.loc_has_directives = False
         self.block_has_earlier_directives = False  # at a smaller offset of the current block
 
@@ -225,6 +229,7 @@ class Machine:
             raise IllFormed("outside-procedure")
         if name == ".cfi_endproc":
             self.in_proc = False
+            self.ghost = (_row(self.cfa, self.regs), self.initial, tuple(self.stack), self.personality, self.lsda, self.return_column)
             self._reset_procedure()
         # ---- procedure-wide (CIE augmentation / FDE) data
         elif name in (".cfi_personality", ".cfi_lsda"):
@@ -331,10 +336,11 @@ class Machine:
         directives, does the current block have directives at earlier offsets."""
         where = (self.loc_has_directives, self.block_has_earlier_directives)
         if not self.in_proc:
-            return ("out", where)
+            return ("out", where, self.ghost)
         return (
             "in",
             where,
+            self.ghost,
             self.cie_open,
             self.return_column,
             self.personality,
